@@ -6,6 +6,7 @@ import (
 	"context"
 	"encoding/json"
 	"fmt"
+	"github.com/thushan/olla/internal/config"
 	"os"
 	"path/filepath"
 	"sort"
@@ -24,6 +25,7 @@ type verifProviderScn struct {
 	Types  map[string]string `json:"types"`
 	H      []string          `json:"H"`
 	Refuse []string          `json:"refuse"` // healthy when the request arrives, but their listener is closed
+	Strat  string            `json:"strat"`  // "plain" | "disc_all" (discovery strategy, fallback all, refresh on miss; unknown model)
 }
 
 type verifProfileYAML struct {
@@ -111,9 +113,18 @@ func TestVerif_Provider(t *testing.T) {
 			opts[i].Models = []string{"m1", []string{"alphaone", "bravotwo", "charliethree", "deltafour"}[i%4]}
 			modelsOf[n] = opts[i].Models
 		}
-		stk, err := verifBoot("sherpa", "round-robin", "auto", opts, nil)
+		var mod func(*config.Config)
+		if sc.Strat == "disc_all" {
+			mod = func(c *config.Config) {
+				c.ModelRegistry.RoutingStrategy.Type = "discovery"
+				c.ModelRegistry.RoutingStrategy.Options.FallbackBehavior = "all"
+				c.ModelRegistry.RoutingStrategy.Options.DiscoveryRefreshOnMiss = true
+				c.ModelRegistry.RoutingStrategy.Options.DiscoveryTimeout = time.Second
+			}
+		}
+		stk, err := verifBoot("sherpa", "round-robin", "auto", opts, mod)
 		if err != nil {
-			b.Emit("Reset", "scn", sn, "booted", false, "err", err.Error(), "prefix", sc.Prefix, "allowed", []string{}, "types", sc.Types, "H", []string{}, "refuse", []string{})
+			b.Emit("Reset", "scn", sn, "booted", false, "err", err.Error(), "prefix", sc.Prefix, "allowed", []string{}, "types", sc.Types, "H", []string{}, "refuse", []string{}, "strat", sc.Strat)
 			return
 		}
 		defer stk.Close()
@@ -154,7 +165,7 @@ func TestVerif_Provider(t *testing.T) {
 			}
 		}
 		emit("Reset", "scn", sn, "booted", true, "prefix", sc.Prefix, "allowed", verifAllowedTypes(sc.Prefix), "types", sc.Types,
-			"H", hObs, "known", known, "refuse", append([]string{}, sc.Refuse...))
+			"H", hObs, "known", known, "refuse", append([]string{}, sc.Refuse...), "strat", sc.Strat)
 		for _, be := range stk.backends {
 			if verifHas(sc.Refuse, be.Name) {
 				be.SetDown(true)
@@ -163,6 +174,9 @@ func TestVerif_Provider(t *testing.T) {
 		emit("ClientSend")
 		// no model named: this check is about endpoint KIND, model routing is C09's business
 		body := fmt.Sprintf(`{"messages":[{"role":"user","content":"p%d"}]}`, sn)
+		if sc.Strat == "disc_all" {
+			body = fmt.Sprintf(`{"model":"mx-unlisted","messages":[{"role":"user","content":"p%d"}]}`, sn)
+		}
 		res := zzverif.Do(stk.addr, &zzverif.Req{Method: "POST", Target: "/olla/" + sc.Prefix + "/v1/chat/completions",
 			Headers: []string{"Content-Type: application/json", fmt.Sprintf("X-Verif-Req: p%d", sn)}, Body: []byte(body), Timeout: 20 * time.Second})
 		st := res.Status
